@@ -139,6 +139,9 @@ aa = first
 	{Name: "d.tsv", Fmt: "tsv", Group: "C", Text: "name\tn\tflag\nann\t30\ttrue\nbob\t4\tfalse\n"},
 	// records under OTHER column names (a row-wise encoder that serves both must write each under its own header)
 	{Name: "d2.csv", Fmt: "csv", Group: "C2", Text: "id,colour\n7,red\n8,blue\n"},
+	// TOML files whose tables share names: an array of tables in one, a plain table path through the same name in the other
+	{Name: "d_aot.toml", Fmt: "toml", Group: "T2", Text: "[[fruits]]\nname = \"apple\"\n\n[[fruits]]\nname = \"pear\"\n\n[owner]\nname = \"o\"\n"},
+	{Name: "d_sub.toml", Fmt: "toml", Group: "T2", Text: "[fruits.physical]\ncolor = \"red\"\n\n[owner.address]\ncity = \"c\"\n"},
 	// a Lua script that sets globals and returns nothing: the globals are the document, in assignment order
 	{Name: "d_globals.lua", Fmt: "lua", Group: "L2", Text: "name = \"glob\"\nn = 3\nlist = {1, 2}\nflag = true\nzz = \"q\"\nother = 1.5\nlast = \"w\"\n"},
 	{Name: "d.xml", Fmt: "xml", Group: "X", Text: `<?xml version="1.0" encoding="UTF-8"?>
@@ -500,6 +503,12 @@ func c18BuildPool() bool {
 		add(c18Entry{Expr: ".", Files: []string{"d.csv"}, In: "csv", Out: o})
 		add(c18Entry{Expr: `map(pick(["grp", "name"]))`, Files: []string{"d_arr.yaml"}, In: "yaml", Out: o})
 		add(c18Entry{Expr: `map(pick(["n"]))`, Files: []string{"d_arr2.yaml", "d_arr.yaml"}, In: "yaml", Out: o})
+	}
+	for _, o := range []string{"json", "yaml"} {
+		for _, ex := range []string{".", ".fruits", "keys", ".owner"} {
+			add(c18Entry{Expr: ex, Files: []string{"d_aot.toml"}, In: "toml", Out: o})
+			add(c18Entry{Expr: ex, Files: []string{"d_sub.toml"}, In: "toml", Out: o})
+		}
 	}
 	for _, ex := range []string{".", "keys", "to_json(0)", "to_entries | map(.key) | join(\",\")", ".name"} {
 		add(c18Entry{Expr: ex, Files: []string{"d_globals.lua"}, In: "lua", Out: "json"})
